@@ -88,6 +88,8 @@ type KnownFinding struct {
 	Rule     string `json:"rule"`
 	Shape    string `json:"shape"`
 	What     string `json:"what"`
+	// Parts, when present, is the set of refinements the finding covers (see Violation.Parts).
+	Parts []string `json:"parts,omitempty"`
 }
 
 var knownFindings []KnownFinding
@@ -108,7 +110,22 @@ func loadKnown(path string) {
 func knownID(v Violation) string {
 	for _, k := range knownFindings {
 		if k.Property == v.Property && (k.Rule == "" || k.Rule == v.Rule) && (k.Shape == "" || strings.Contains(v.Shape, k.Shape)) {
-			return k.ID
+			ok := true
+			if len(k.Parts) > 0 {
+				for _, p := range v.Parts {
+					found := false
+					for _, q := range k.Parts {
+						if p == q {
+							found = true
+						}
+					}
+					ok = ok && found
+				}
+				ok = ok && len(v.Parts) > 0
+			}
+			if ok {
+				return k.ID
+			}
 		}
 	}
 	return ""
@@ -333,6 +350,9 @@ func TestWorker(t *testing.T) {
 		}()
 		if last != nil {
 			fail = last
+		} else if tb.failed {
+			// rapid reported a failure that no oracle raised: a generator or harness panic
+			out.HarnessErr = append(out.HarnessErr, "rapid failure without an oracle violation: "+strings.Join(tb.msgs, " | "))
 		}
 		if len(out.HarnessErr) > 0 {
 			break
